@@ -207,6 +207,12 @@ func c03Invariants(c Cfg, model OriginModel, debug bool, r Req, resp Resp) *Disc
 
 func c03Gen(t *rapid.T) C03Case {
 	c := C03Case{Cfg: genValidCfg(t), Debug: chance(t, "debug", 40)}
+	if chance(t, "one-violation-config", 12) {
+		// "every ACCEPTED configuration": a configuration with exactly one documented violation is
+		// expected to be rejected (then the case is trivial); should the library accept it, the
+		// claims about responses apply to it all the same
+		c.Cfg = genAtomCfg(t, mixOneViolation)
+	}
 	p := poolsOf(c.Cfg)
 	n := intIn(t, "nreqs", 4, 24)
 	for i := 0; i < n; i++ {
@@ -223,8 +229,12 @@ func c03Check(c C03Case, rec *Recorder) *Disc {
 	}
 	model := NewOriginModel(c.Cfg.Origins)
 	var kf *Disc
-	for _, r := range c.Reqs {
-		resp := Do(m.Wrap, r, nil)
+	wrap := oneWrap(m.Wrap) // the whole batch through one wrapped handler
+	for ri, r := range c.Reqs {
+		if ri == len(c.Reqs)/2 {
+			m.Config() // an observer, called in the middle of the batch
+		}
+		resp := Do(wrap, r, nil)
 		rec.Eval(1)
 		origin, hasOrigin := firstVal(r, hOrigin)
 		vs, _ := r.Get(hOrigin)
@@ -262,7 +272,7 @@ func c03Check(c C03Case, rec *Recorder) *Disc {
 
 func c03Prop() Prop[C03Case] {
 	return Prop[C03Case]{ID: "C03", Gen: c03Gen, Check: c03Check,
-		Rule: "generator: valid configuration (all switches, origin kinds incl. allow-all, method/header/response-header lists, max-age, status) x debug x batch of 4-24 arbitrary requests " +
+		Rule: "generator: valid configuration (all switches, origin kinds incl. allow-all, method/header/response-header lists, max-age, status; 12% of cases instead a configuration with exactly one documented violation, which is judged only if the library accepts it) x debug x batch of 4-24 arbitrary requests " +
 			"(any method; Origin/ACRM/ACRH/ACRPN absent, zero-valued, single, multi-valued; values from config-derived pools: allowed, near-miss, 34 malformations incl. upper case, userinfo, path/query/fragment, " +
 			"bracketed non-IP host, unmatched bracket, leading-zero/6-digit/zero/65536 port, NUL, non-ASCII, null, empty, 1KiB-1MiB values, junk bytes). evaluations = responses checked against the five invariants. " +
 			"non-trivial = request whose Origin is present and malformed, a near-miss or multi-valued, or a preflight under a credentialed configuration; distinct by (configuration, debug, request).",
